@@ -579,7 +579,7 @@ def pinned_corpus(fmin):
     add("variable rate, upward slew across octaves", ["create ir=8 or=1 ch=2 itype=0 otype=3 recipe=4 qflags=32", "setratio 1.1 0", "proc 1 0 1 3000 3000",
                                                        "setratio 7.9 3000", "proc 1 0 1 20000 2000", "proc 1 0 1 20000 2000", "proc 0 0 0 0 5000"])
     # known findings, hit on purpose (avoid=0)
-    add("F1 pinned: HQ phase 25, 1->128", ["create ir=1 or=128 ch=1 recipe=4 phase=25 itype=0 otype=0 avoid=0"] + ["proc 1 0 0 5000 700000"] * 8 + ["proc 0 0 0 0 700000"], expect="F1")
+    add("F1-witness (fixed): HQ phase 25, 1->128", ["create ir=1 or=128 ch=1 recipe=4 phase=25 itype=0 otype=0 avoid=0"] + ["proc 1 0 0 5000 700000"] * 8 + ["proc 0 0 0 0 700000"])
     add("F5-witness (fixed): LQ 1->8192 large=8", ["create ir=1 or=8192 ch=1 recipe=1 large=8 itype=0 otype=0 avoid=0", "proc 1 1 0 10 90000"])
     add("F36-witness (fixed): VR 0.67 -> 8.77 at once, long call", ["create ir=16 or=1 ch=2 itype=0 otype=4 recipe=4 qflags=34 scale=2.5 avoid=0", "setratio 0.6712862513901316 0",
                                                         "setratio 8.772572708703153 1", "proc 1 0 0 1023 117", "proc 1 0 0 31850 10259", "proc 1 0 0 2048 481"])
